@@ -287,13 +287,13 @@ func Run(rep *hx.Report, props Props, tier string, sh hx.Shard, deadline time.Ti
 				r.singles(m2, Programs(al2, 10, 2), [][2]uint64{{m2, m2}}, 20)
 				r.pairs(m2, Programs(al2, 8, 2), []uint64{1, 2, 4}, []uint64{20}, [][2]uint64{{m2, m2}}, false)
 			}
-			rep.Bound = "M in {5,13}: all programs of length 1..2 over 10 letters alone and all ordered pairs over 8 letters x every offset x P in {1,2,4}; M=8: all programs of length 1..2 over 16 letters and length 3 over 8 letters alone (P 1..3, 2 offsets, every entry point); all ordered pairs of the 272 short programs x offsets 1..7 x P 1..3 x entry points x cycle limit 24, and x every cycle limit 1..6 at P=2; all triples of one-instruction programs x all offset pairs x P 1..2; all quadruples over 8 letters x P 1..3; all ordered pairs over 10 letters with process limits 5, 6, 7, 9, 17 and 40 cycles, and under read/write limits (3,4) (4,3) (1,8) (8,2) (5,5)"
-			r.singles(M, append(Programs(alpha, 16, 2), Programs(alpha, 8, 3)[72:]...), full, 24)
-			p2 := Programs(alpha, 16, 2)
+			rep.Bound = "M in {5,13}: all programs of length 1..2 over 10 letters alone and all ordered pairs over 8 letters x every offset x P in {1,2,4}; M=8: all programs of length 1..2 over the 20 letters and length 3 over 10 letters alone (P 1..3, 2 offsets, every entry point); all ordered pairs of the 420 short programs x offsets 1..7 x P 1..3 x entry points x cycle limit 24, and x every cycle limit 1..6 at P=2; all triples of one-instruction programs x all offset pairs x P 1..2; all quadruples over 10 letters x P 1..3; all ordered pairs over 10 letters with process limits 5, 6, 7, 9, 17 and 40 cycles, and under read/write limits (3,4) (4,3) (1,8) (8,2) (5,5)"
+			r.singles(M, append(Programs(alpha, 20, 2), Programs(alpha, 10, 3)[110:]...), full, 24)
+			p2 := Programs(alpha, 20, 2)
 			r.pairs(M, p2, []uint64{1, 2, 3}, []uint64{24}, full, true)
 			r.pairs(M, p2, []uint64{2}, []uint64{1, 2, 3, 4, 5, 6}, full, false)
-			r.triples(M, alpha, 16, []uint64{1, 2}, 16, full)
-			r.quads(M, alpha, 8, 12)
+			r.triples(M, alpha, 20, []uint64{1, 2}, 16, full)
+			r.quads(M, alpha, 10, 12)
 			r.pairs(M, Programs(alpha, 10, 2), []uint64{5, 6, 7, 9, 17}, []uint64{40}, full, false)
 			r.pairs(M, Programs(alpha, 10, 2), []uint64{2}, []uint64{24}, [][2]uint64{{3, 4}, {4, 3}, {1, 8}, {8, 2}, {5, 5}}, false)
 			r.classics([]uint64{80, 256, 800, 4096, 8000, 65536}, []uint64{8, 64, 8000}, 80000, true)
@@ -329,14 +329,20 @@ func Run(rep *hx.Report, props Props, tier string, sh hx.Shard, deadline time.Ti
 		} else {
 			r.classics([]uint64{257}, []uint64{8}, 1500, false)
 		}
-		for _, m := range []uint64{8, 5} {
+		c12sizes := []uint64{8, 5}
+		if thorough {
+			c12sizes = []uint64{8, 5, 13}
+		}
+		for _, m := range c12sizes {
 			al := Alphabet(m)
 			lims := [][2]uint64{{m, m}, {3, 4}}
 			if thorough {
-				rep.Bound = "M in {8,5}, limits (M,M) and (3,4): all programs of length 1..2 over 16 letters alone; all ordered pairs of programs of length 1..2 over 10 letters x every offset x every entry point at P=2; all triples over 8 letters x all offset pairs; each x every shift in [0,M) x offset spellings off+jM, j in 0..2, and the largest one below 2^64"
+				rep.Bound = "M in {8,5,13}, limits (M,M) and (3,4): all programs of length 1..2 over the 20 letters and of length 3 over 10 letters alone; all ordered pairs of programs of length 1..2 over 14 letters x every offset x every entry point at P=2, and over 8 letters at P in {1,3}; all triples over 10 letters x all offset pairs; each x every shift in [0,M) x offset spellings off+jM, j in 0..2, and the largest one below 2^64"
 				r.singles(m, Programs(al, len(al), 2), lims, 12)
-				r.pairs(m, Programs(al, 10, 2), []uint64{2}, []uint64{12}, lims, true)
-				r.triples(m, al, 8, []uint64{2}, 10, lims[:1])
+				r.singles(m, Programs(al, 10, 3)[110:], lims[:1], 12) // the 1000 three-instruction programs over 10 letters
+				r.pairs(m, Programs(al, 14, 2), []uint64{2}, []uint64{12}, lims, true)
+				r.pairs(m, Programs(al, 8, 2), []uint64{1, 3}, []uint64{12}, lims[:1], false)
+				r.triples(m, al, 10, []uint64{2}, 10, lims[:1])
 				rep.Bound += "; eight complete warriors of 1..10 instructions alone, in every ordered pair at two spacings and in triples on cores of 64 (every shift), 257 and 4096 cells (shifts 1, 65535, 65536, 65537, M-1, M, M+1, 3M+7 and a multiple of M just below 2^64), process limits 8 and 300, 3000 cycles; a 70001-cell core with offsets around 2^16"
 			} else {
 				rep.Bound = "M in {8,5}, limits (M,M) and (3,4): all programs of length 1..2 over the 20-letter alphabet and of length 3 over 6 letters alone (first and last instruction as entry point); all ordered pairs of programs of length 1..2 over 6 letters x every offset at P=2; all triples over 5 letters; each x every shift x 4 offset spellings (off+jM for j in 0..2 and the largest one below 2^64)"
